@@ -78,7 +78,7 @@ func hostile(t *rapid.T, label string, pool []string) string {
 
 func gen(t *rapid.T) Case {
 	cfg := pat.GenCfg(t, true)
-	c := Case{Icpt: cfg.IcptName, Trace: rapid.IntRange(0, 3).Draw(t, "trace") == 0, CORS: rapid.SampledFrom([]string{"none", "none", "allowed", "list"}).Draw(t, "cors")}
+	c := Case{Icpt: cfg.IcptName, Trace: rapid.IntRange(0, 3).Draw(t, "trace") == 0, CORS: rapid.SampledFrom([]string{"none", "none", "allowed", "list", "biglist"}).Draw(t, "cors")}
 	c.Pool = pat.GenPool(t, cfg, rapid.IntRange(2, rig.Up(10)).Draw(t, "npool"))
 	c.Ops = life.GenOps(t, cfg, c.Pool, rapid.IntRange(0, rig.Up(15)).Draw(t, "nops"),
 		life.GenOpts{Facades: true, Hostile: true, NewMethods: false, Trace: c.Trace})
@@ -93,7 +93,7 @@ func gen(t *rapid.T) Case {
 	for i, n := 0, rapid.IntRange(1, 8).Draw(t, "nreqs"); i < n; i++ {
 		r := Req{Method: hostile(t, "method", hostileMethods), Host: hostile(t, "host", hostileHosts), Accept: hostile(t, "accept", hostileAccept)}
 		if rapid.IntRange(0, 2).Draw(t, "corsHeaders") == 0 {
-			r.Origin = hostile(t, "origin", []string{"https://a.example", "null", "*", "\xff"})
+			r.Origin = hostile(t, "origin", []string{"https://a.example", "null", "*", "\xff", "https://t05.example.com", "https://t050.example.com", "https://zzz.example", "a", "https://t", strings.Repeat("https://long.example/", 40)})
 			r.ACRM = hostile(t, "acrm", []string{"GET", "DELETE", "BOGUS", " "})
 			r.ACRH = hostile(t, "acrh", []string{"Content-Type", "x-custom, ,", ",", "\xff"})
 			if rapid.Bool().Draw(t, "preflight") {
@@ -168,6 +168,12 @@ func check(c Case, st *rig.Stats) error {
 		corsOpt = append(corsOpt, mux.WithAllowedCORS(60))
 	case "list":
 		corsOpt = append(corsOpt, mux.WithCORS([]string{"https://a.example"}, []string{"Content-Type"}, []string{"X-E"}, 0, true))
+	case "biglist":
+		var origins []string
+		for i := 0; i < 36; i += 1 + i%3 {
+			origins = append(origins, fmt.Sprintf("https://t%02d.example.com", i))
+		}
+		corsOpt = append(corsOpt, mux.WithCORS(origins, []string{"Content-Type", "X-A", "X-B", "X-C", "X-D", "X-E", "X-F", "X-G", "X-H", "X-I"}, nil, 60, true))
 	}
 	s := life.NewSys(env, c.Icpt, rig.Opts{Trace: c.Trace, Extra: corsOpt})
 	nontriv := false
